@@ -341,11 +341,11 @@ func runC13(ci interface{}, st *CaseStats) error {
 }
 
 var specC13 = &Spec{
-	ID:   "C13",
-	Rule: "case = history of 3..24 writes over 2..6 prefix-related keys, 0..5 partition borders (index record of a stored key, any revision of a stored key — stored or not —, well-formed internal keys of keys that are not stored), a shuffle of the partition order, a read revision and a range; mode shim = memkv with the borders injected through GetPartitions in shuffled order, mode regions = TiKV mock cluster split into regions at the same borders (real ScanRegions path). Oracle = reference model snapshot: unlimited List exact, Count, whole-range stream and the concatenation of streams over advertised partitions as multisets with multiplicity 1 and the right version; every data batch names the read revision; exactly one terminator, no error, nothing after it. Non-trivial = a border strictly inside one key's version run with versions <= R on both sides; distinct = SHA-1 of the case",
-	Gen:  genC13,
-	New:  func() interface{} { return &c13Case{} },
-	Run:  runC13,
+	ID:          "C13",
+	Rule:        "case = history of 3..24 writes over 2..6 prefix-related keys, 0..5 partition borders (index record of a stored key, any revision of a stored key — stored or not —, well-formed internal keys of keys that are not stored), a shuffle of the partition order, a read revision and a range; mode shim = memkv with the borders injected through GetPartitions in shuffled order, mode regions = TiKV mock cluster split into regions at the same borders (real ScanRegions path). Oracle = reference model snapshot: unlimited List exact, Count, whole-range stream and the concatenation of streams over advertised partitions as multisets with multiplicity 1 and the right version; every data batch names the read revision; exactly one terminator, no error, nothing after it. Non-trivial = a border strictly inside one key's version run with versions <= R on both sides; distinct = SHA-1 of the case",
+	Gen:         genC13,
+	New:         func() interface{} { return &c13Case{} },
+	Run:         runC13,
 	Assumptions: []string{"borders are well-formed internal keys (the forms an engine that splits at existing keys can produce)"},
 	Engines:     []string{EngMem + "+shim", EngTiKV + "+regions"},
 }
